@@ -426,7 +426,10 @@ def judgeServer (ct ot : List String) : Option Verdict := do
       let o := obs.headD ""
       let r? := (parseReaction o).map fun r => { r with hellos := st.pack }
       let binding : Spec.Cookie.Binding := ⟨keyOf st.conn, peer, toSpec h⟩
-      if !st.fragList.isEmpty && (!st.own || dead.contains st.conn || !versionOk Facts.dtlcp.VersionTLCP h.vers) then none else
+      -- fragment scripts are modelled for the connection's own, live, right-version hellos; in any other state the
+      -- step is not judged (the observation is echoed): the whole-message steps cover those states
+      if !st.fragList.isEmpty && (!st.own || dead.contains st.conn || !versionOk Facts.dtlcp.VersionTLCP h.vers) then
+        go rest obs.tail issued false started dead (o :: outs) fail else
       if st.own && !dead.contains st.conn && !started.contains st.conn
           && !versionOk Facts.dtlcp.VersionTLCP h.vers then
         -- first hello of the connection, version selection fails: protocol_version alert, connection over
@@ -464,7 +467,7 @@ def judgeServer (ct ot : List String) : Option Verdict := do
           -- the hello as a series of fragment datagrams, each observed on its own; leftover buffers
           -- of earlier steps are filed under other message_seq values and play no part
           let total := body.length + cookieLen
-          if st.fragList.any (fun f => f.1 + f.2 > total) then none else
+          if st.fragList.any (fun f => f.1 + f.2 > total) then go rest obs.tail issued false started dead (o :: outs) fail else
           let delivered := if Facts.dtlcp.cookieRxDeliveredBufferDropped
             then rxFragments Facts.dtlcp.rxTotalMismatchFatal total [] st.fragList else []
           let (ms, answers, proceeded) := fragModel (loopStep (!nonEmpty) valid macLen) st.fragList delivered
